@@ -193,6 +193,14 @@ func (w *World) GateAt(name string) *Gate {
 	return g
 }
 
+// GateAtNextWrite registers a gate at the next request packet the client writes (whatever its number is).
+func (w *World) GateAtNextWrite() *Gate {
+	w.mu.Lock()
+	k := w.wcount + 1
+	w.mu.Unlock()
+	return w.GateAt("write:" + strconv.Itoa(k))
+}
+
 // ReleaseAllGates releases every gate (end of run / deadline).
 func (w *World) ReleaseAllGates() {
 	w.mu.Lock()
